@@ -133,6 +133,35 @@ def handle (st : State) (req : Json) : Except String (State × Json) := do
     let f ← getFile st
     let r ← enumEval f (← J.str req "id") (← natList req "xs")
     pure (st, Json.mkObj [("status", "ok"), ("results", r)])
+  | "schema" =>
+    let f ← getFile st
+    let sizeJ : Size → Json := fun s => match s with
+      | .static n => Json.mkObj [("static", Json.num n)]
+      | .dynamic => Json.str "dynamic"
+      | .unknown => Json.str "unknown"
+    match Schema.build f with
+    | none => pure (st, Json.mkObj [("status", "panic")])
+    | some sc =>
+      let declJ := (f.decls.zip sc).map fun (d, ds) =>
+        let fieldsJ := (d.fields.zip ds.fields).map fun (fl, fs) =>
+          Json.mkObj [("field_size", sizeJ fs.fieldSize),
+            ("padded_size", match fs.padded with | some p => Json.num p | none => Json.null),
+            ("element_size", match elementSize sc d fl with
+              | some (.static n) => Json.mkObj [("static", Json.num n)]
+              | some .dynamic => Json.str "dynamic"
+              | some .unknown => Json.str "unknown"
+              | none => Json.str "panic"),
+            ("array_size", match arraySize d fl with
+              | .staticCount n => Json.mkObj [("static_count", Json.num n)]
+              | .dynamicCount => Json.str "dynamic_count"
+              | .dynamicSize => Json.str "dynamic_size"
+              | .unknown => Json.str "unknown"),
+            ("is_bitfield", Json.bool (Resolve.isBitfield f fl))]
+        Json.mkObj [("id", match ds.id with | some i => Json.str i | none => Json.null),
+          ("decl_size", sizeJ ds.sizes.declSize), ("parent_size", sizeJ ds.sizes.parentSize),
+          ("payload_size", sizeJ ds.sizes.payloadSize), ("total_size", sizeJ ds.sizes.total),
+          ("fields", Json.arr fieldsJ.toArray)]
+      pure (st, Json.mkObj [("status", "ok"), ("schema", Json.arr declJ.toArray)])
   | "types" =>
     -- which declarations the Rust model supports
     let f ← getFile st
